@@ -126,11 +126,15 @@ CLAIMED = {
     'C01': dict(
         text='Layer 1 (trigger contract): for all OLD/NEW rows and databases the effective jobs_after_update trigger adds exactly g_X(NEW) - g_X(OLD) to each of the 13 counters X, at the user key '
         'and at exactly the ancestor-group keys, with inserted value == duplicate-branch increment (additivity); g_X are the invariant summands written from the property text. '
-        'Layer 2 (closed world): no statement assigns the immutable job columns and no Python statement updates jobs. Bulk operations (cancel_job_group, commit_batch_update, _create_jobs staging) are listed undecided.',
-        note=COMMON_NOTE + 'Assumed: each procedure/trigger invocation is atomic (serialisable isolation); MySQL NULL/boolean semantics as encoded in vc/sqlvc.py; integer column widths sufficient; token-sharded tables are read through SUM over token (meta-lemma L1); SQL cannot be executed in this sandbox so counter-models are rows (VIOLATION ... no-failing-input-found). ',
-        technique='trigger contract (delta obligations against spec summands) on the real SQL text, sqlvc -> z3',
+        'Layer 2 (closed world): no statement assigns the immutable job columns and no Python statement updates jobs; every writer of the three counter tables is under contract; the stored procedure cancel_batch is never called. '
+        'Layer 3 (bulk operations, pointwise): cancel_job_group moves exactly the group\'s totals of committed updates (and only if the group is not already cancelled itself or through an ancestor) and subtracts them from every ancestor; '
+        '_create_jobs stages [Ready] / [Ready and not always_run] totals per job, and its transaction insert_jobs_into_db writes no counter before the jobs INSERT passed the duplicate-bunch test, writes each counter table exactly once per accepted bunch and fans every (group, inst_coll) entry out to exactly the ancestors of its group; '
+        'commit_batch_update adds exactly the root group\'s staged ready totals of the update to the batch user\'s counters in the transaction that flips committed 0 -> 1; the driver\'s cleanup loops delete only cancellable rows of cancelled groups (itself or an ancestor) and staging rows of committed updates. '
+        'Undecided: layer-2 clause (iii) (committed-only touches, tied to C41) and the job-row re-evaluation of commit_batch_update for later updates.',
+        note=COMMON_NOTE + 'Assumed: each procedure/trigger invocation is atomic (serialisable isolation; the first-read locks of commit_batch_update and cancel_job_group are an obligation); MySQL NULL/boolean semantics as encoded in vc/sqlvc.py; integer column widths sufficient; token-sharded tables are read through SUM over token (meta-lemma L1); insert_jobs_into_db runs under @transaction (commit on return, rollback on exception: C27); the cleanup loops are judged against the database their target query saw (monotone cancellation / commit flags are scanned); SQL cannot be executed in this sandbox so counter-models are rows (VIOLATION ... no-failing-input-found). ',
+        technique='trigger and procedure contracts (delta obligations against spec summands) on the real SQL text, sqlvc -> z3; the Python coroutines that issue counter SQL executed by pyvc with their statements run by sqlvc',
         engine='sqlvc',
-        design_ref='7/C01 layers 1-2',
+        design_ref='7/C01 layers 1-3',
     ),
     'C02': dict(
         text='attempts_after_update and attempt_resources_after_insert verified for all rows: each of the four aggregate tables receives exactly quantity x (billed(NEW) - billed(OLD)) (resp. quantity x billed) '
